@@ -335,7 +335,11 @@ def op_line(o):
     return " ".join(str(x) for x in o)
 
 
-MODES = ("send", "local-adapter", "local-native")
+MODES = ("send", "local-adapter", "local-native", "remote-shim")
+LOCAL_MODES = ("local-adapter", "local-native")   # thread-local hosts (model: c_local = true)
+# remote-shim: actors with a REMOTE ActorId (ActorRuntime::spawn_linked_remote, messages through
+# box_message -> SerializedMessage -> handle_serialized) on the paused main runtime; to the model an
+# ordinary Send actor (actor.rs::start is shared: link after pre_start, state reported)
 
 
 def to_line(sc, mode="send"):
@@ -375,8 +379,14 @@ def cfg_coq(a, local=False):
             + ("true" if local else "false"))
 
 
-def op_coq(o):
+def op_coq(o, mode="send"):
     k = o[0]
+    if k == "spawn" and mode == "remote-shim":
+        # spawn_linked_remote is not an instant spawn: the engine polls its future once at the op
+        # (cell, Starting, pre_start up to its first suspension point)
+        return f"DL (LSpawn {o[1]}); DL (LPoll {o[1]} {FUEL})"
+    if k == "sendn":
+        return ""       # rejected by box_message (no wire format for a remote pid): not a model step
     return {"spawn": lambda: f"DL (LSpawn {o[1]})", "send": lambda: f"DL (LSend {o[1]} {o[2]})",
             "stop": lambda: f"DL (LStop {o[1]} {onat(o[2])})", "kill": lambda: f"DL (LKill {o[1]})",
             "drain": lambda: f"DL (LDrain {o[1]})", "open": lambda: f"DL (LOpen {o[1]})",
@@ -385,14 +395,25 @@ def op_coq(o):
             "spawnx": lambda: f"DL (LSpawn {o[1]}); DL (LPoll {o[1]} 60); DL (LAbort {o[1]})"}[k]()
 
 
-def world_coq(sc, local=False):
-    cfgs = "[" + "; ".join(cfg_coq(a, local) for a in sc["actors"]) + "]"
+ROOT_CFG = {"pre": [[], ["ok"]], "ps": [[], ["ok"]], "stop": [[], ["ok"]], "sup": [[], ["ok"]], "link": None}
+
+
+def world_coq(sc, local=False, mode="send"):
+    acts = sc["actors"]
+    if mode == "remote-shim":
+        # spawn_linked_remote always links: a `link=-` actor hangs under the harness root, which is actor
+        # n of the model world (created by the first model op, never polled, outside every view); the
+        # link is observable: it fails for a child that drained itself during pre_start
+        n = len(acts)
+        acts = [dict(a, link=n) if a["link"] is None else a for a in acts] + [ROOT_CFG]
+    cfgs = "[" + "; ".join(cfg_coq(a, local) for a in acts) + "]"
     msgs = "[" + "; ".join(f"({m}, {script_coq(s)})" for m, s in sorted(sc["msgs"].items())) + "]"
     return f"(init {cfgs} {msgs})"
 
 
-def ops_coq(sc):
-    return "[" + "; ".join(op_coq(o) for o in sc["ops"]) + "]"
+def ops_coq(sc, mode="send"):
+    pre = [f"DL (LSpawn {len(sc['actors'])})"] if mode == "remote-shim" else []
+    return "[" + "; ".join(pre + [x for x in (op_coq(o, mode) for o in sc["ops"]) if x]) + "]"
 
 
 def links_only_coq(sc):
@@ -413,16 +434,16 @@ def orders(n, full=False):
     return [asc, desc, asc[1:] + asc[:1], [i for i in asc for _ in (0, 1)], [i for i in desc for _ in (0, 1)]]
 
 
-def model_expr(sc, order, local=False):
+def model_expr(sc, order, local=False, mode="send"):
     o = "[" + "; ".join(str(i) for i in order) + "]"
-    return f"trace_of (run_dops {ROUNDS} {FUEL} {o} {world_coq(sc, local)} {ops_coq(sc)})"
+    return f"trace_of (run_dops {ROUNDS} {FUEL} {o} {world_coq(sc, local, mode)} {ops_coq(sc, mode)})"
 
 
 def links_coq(sc, mode="send"):
     """the oracle's view of the configuration: `<links> <locals>` (two Coq lists: spawn-links, and
     which actors are thread-local = all of them in the local modes), as check_C04 takes them"""
     links = "[" + "; ".join(onat(a["link"]) for a in sc["actors"]) + "]"
-    locs = "[" + "; ".join(("false" if mode == "send" else "true") for _ in sc["actors"]) + "]"
+    locs = "[" + "; ".join(("true" if mode in LOCAL_MODES else "false") for _ in sc["actors"]) + "]"
     return links + " " + locs
 
 
@@ -476,6 +497,7 @@ TRUSTED = [
     "E1 engine: tokio current_thread runtime with start_paused(true); sleep(1ns) as exact quiescence barrier; harness actors interpret scripts",
     "scenarios whose outcome depends on the poll order of different actors within one settle window (detected by evaluating the model under three poll orders) are excluded from the comparison",
     "thread-local modes: actors run on the ThreadLocalActorSpawner's OS thread; the harness freezes that thread while the driver or the main runtime runs and decides its idleness from /proc/self/task (state S + unchanged scheduling counters in 3 consecutive samples, docs/notes/C01-threadlocal.md); a bound of 10 s per settle ends the run as an infrastructure failure, never as a verdict",
+    "remote-shim mode: actors with a remote ActorId on the paused main runtime; to the model ordinary Send actors (ActorRuntime::start is shared); link=- actors hang under an invisible harness root because spawn_linked_remote needs a supervisor; the spawn op polls spawn_linked_remote once at once (model: LSpawn; LPoll); no name / pid registry, no pg, no NodeSession involved (docs/notes/C01-remote-shim.md)",
     "thread-local modes: the model runs with c_local = true (link before pre_start, atomically with the start of pre_start although the real builder crosses to the spawner thread in between; ActorTerminated never carries the non-Send state: check_C04's locals argument)",
 ]
 
@@ -547,8 +569,8 @@ def compare_build(chk, scs, build, tag, oracle_fn, accept, what, distinct, mode=
     (counted as complete_oracle_inapplicable, never an alarm)."""
     shrunk = False
     compared = discarded = 0
-    local = mode != "send"
-    pre = f"local.{mode}." if local else ""
+    local = mode in LOCAL_MODES
+    pre = f"local.{mode}." if local else ("" if mode == "send" else f"{mode}.")
     impl = run_harness(build, "eng_world", [to_line(sc, mode) for sc in scs], shards=8)
     # teardown report of the harness: actors that were still not Stopped after the final kill() + settle
     survived = {}
@@ -563,15 +585,15 @@ def compare_build(chk, scs, build, tag, oracle_fn, accept, what, distinct, mode=
         n = len(sc["actors"])
         if wm and complete_fn:
             lk = links_only_coq(sc)
-            ms = "; ".join(f"(let tm := {model_expr(sc, o, local)} in (tm, {complete_fn(lk, 'tm')}))"
+            ms = "; ".join(f"(let tm := {model_expr(sc, o, local, mode)} in (tm, {complete_fn(lk, 'tm')}))"
                            for o in orders(n, full=local))
             exprs.append(f"([{ms}], (let ti := {it} in ({oracle_fn(n, links_coq(sc, mode), 'ti')}, {complete_fn(lk, 'ti')})))")
         elif wm:
-            ms = ", ".join(model_expr(sc, o, local) for o in orders(n, full=local))
+            ms = ", ".join(model_expr(sc, o, local, mode) for o in orders(n, full=local))
             exprs.append(f"({ms}, {oracle_fn(n, links_coq(sc, mode), it)})")
         else:
             exprs.append(f"(0, {oracle_fn(n, links_coq(sc, mode), it)})")
-    res = coq_eval(chk.prop + ("" if not local else "_" + mode.replace("-", "_")), IMPORTS, exprs, scope="nat_scope")
+    res = coq_eval(chk.prop + ("" if mode == "send" else "_" + mode.replace("-", "_")), IMPORTS, exprs, scope="nat_scope")
     for idx, (sc, it, r, wm) in enumerate(zip(scs, impl, res, with_model)):
         n = len(sc["actors"])
         t = parse_term(r)
@@ -662,9 +684,9 @@ def compare_build(chk, scs, build, tag, oracle_fn, accept, what, distinct, mode=
             chk.violation(f"model/implementation disagree on actor(s) {who}",
                           f"correspondence E1:per-actor view differs for actor(s) {who} (oracle accepts)\n"
                           + json.dumps(desc, indent=1), failing_input=False)
-        if len([x for x in chk.coverage["samples"] if x.get("mode", "send") == mode]) < (1 if local else 2) and len(ph) >= 5:
+        if len([x for x in chk.coverage["samples"] if x.get("mode", "send") == mode]) < (2 if mode == "send" else 1) and len(ph) >= 5:
             smp = {"scenario": to_line(sc, mode), "impl_trace": it}
-            if local:
+            if mode != "send":
                 smp["mode"] = mode
             chk.coverage["samples"].append(smp)
     return compared, discarded
@@ -699,6 +721,101 @@ def gen_local(rng, k, focus):
     return sc
 
 
+def gen_kill_parked_handler(rng):
+    """A message handler is parked at a gate (for a remote-id actor: inside handle_serialized); the actor
+    is killed (or stopped / drained, for contrast) and only then the gate opens: a killed actor's handler
+    must be cancelled at its suspension point and must not tick again (C03 rule 33, seed C03-6)."""
+    n = rng.choice([1, 2, 2, 3])
+    gates = [1]
+    actors = []
+    for i in range(n):
+        actors.append({"pre": ([("t",)] * rng.choice([0, 1]), ("ok",)), "ps": ([], ("ok",)),
+                       "stop": ([("t",)], ("ok",)),
+                       "sup": None if i else ([("t",)], ("ok",)),
+                       "link": None if i == 0 else rng.choice([None, 0])})
+    msgs = {}
+    mg = {}
+    for m in (1, 2, 3, 4):
+        g = gates[0]
+        gates[0] += 1
+        mg[m] = g
+        msgs[m] = ([("t",)] * rng.choice([0, 1]) + [("g", g)] + [("t",)] * rng.choice([1, 2]), ("ok",))
+    ops = []
+    for i in range(n):
+        ops += [("spawn", i), ("settle",)]
+    used = []
+    for i in range(n):
+        m = rng.choice([1, 2, 3, 4])
+        used.append(m)
+        ops.append(("send", i, m))
+        if rng.random() < 0.3:
+            ops.append(("send", i, rng.choice([1, 2, 3, 4])))
+    ops.append(("settle",))
+    for i in range(n):
+        ops.append(rng.choice([("kill", i), ("kill", i), ("kill", i), ("stop", i, None), ("drain", i)]))
+        if rng.random() < 0.4:
+            ops.append(("settle",))
+    for g in range(1, gates[0]):
+        ops.append(("open", g))
+    ops.append(("settle",))
+    return {"actors": actors, "msgs": msgs, "ops": ops}
+
+
+def gen_sendn_linked(rng):
+    """mode remote-shim: idle children under a living supervisor with its own supervision handler get
+    casts of a message type WITHOUT wire format (`sendn`), mixed with ordinary sends.  box_message must
+    reject them for a remote pid; if one got through, the shim would fail without any failed callback and
+    the supervisor would hear an ActorFailed that check_C04's classification rejects (seed C02-5)."""
+    n = rng.choice([2, 3])
+    gates = [1]
+    actors = [{"pre": ([], ("ok",)), "ps": ([], ("ok",)), "stop": ([("t",)], ("ok",)),
+               "sup": ([("t",)], ("ok",)), "link": None}]
+    for i in range(1, n):
+        actors.append({"pre": ([("t",)] * rng.choice([0, 1]), ("ok",)), "ps": ([], ("ok",)),
+                       "stop": ([], ("ok",)), "sup": None, "link": 0})
+    msgs = {m: ([("t",)] * rng.choice([0, 1, 2]), ("ok",)) for m in (1, 2, 3, 4)}
+    ops = [("spawn", 0), ("settle",)]
+    for i in range(1, n):
+        ops += [("spawn", i), ("settle",)]
+    for _ in range(rng.choice([2, 3, 5])):
+        a = rng.randrange(0, n)
+        ops.append(rng.choice([("sendn", a, rng.choice([1, 2, 3, 4])), ("send", a, rng.choice([1, 2, 3, 4]))]))
+        if rng.random() < 0.6:
+            ops.append(("settle",))
+    ops.append(("sendn", rng.randrange(1, n), 1))
+    ops.append(("settle",))
+    return {"actors": actors, "msgs": msgs, "ops": ops}
+
+
+def gen_remote(rng, k, focus):
+    """scenarios for mode remote-shim (every actor has a remote ActorId and gets its messages through
+    handle_serialized): the families of the Send mode except `spawnx`, gen_kill_parked_handler (1 in 10),
+    gen_sendn_linked (1 in 20); 1 driver `send` in 8 is preceded
+    by a `sendn` (cast of a message type without wire format: box_message must reject it for a remote
+    pid; not a model step)"""
+    if k % 8 == 7:
+        sc = gen_abort_in_post_stop(rng)
+    elif k % 10 == 1:
+        sc = gen_kill_parked_handler(rng)
+    elif k % 20 == 6:
+        sc = gen_sendn_linked(rng)
+    elif k % 20 == 13:
+        sc = gen_fail_with_pending_stop(rng)
+    elif k % 20 == 3:
+        sc = gen_backlog_then_sup(rng)
+    elif k % 5 == 4:
+        sc = gen_supburst(rng)
+    else:
+        sc = gen_scenario(rng, "ports" if k % 2 else focus)
+    ops = []
+    for o in sc["ops"]:
+        if o[0] == "send" and rng.random() < 0.125:
+            ops.append(("sendn", o[1], o[2]))
+        ops.append(o)
+    sc["ops"] = ops
+    return sc
+
+
 def run_loop_check(chk, oracle_fn, focus, what, accept=lambda o: o == "true", complete_fn=None):
     """oracle_fn(n, links, impl_trace_coq) -> Coq expression; accept(parsed value) -> bool.
     (`links` is the string "<links> <locals>", see links_coq.)
@@ -712,6 +829,7 @@ def run_loop_check(chk, oracle_fn, focus, what, accept=lambda o: o == "true", co
     feature_sets = [env_feats] if (quick or env_feats) else [(), ("async-trait",)]
     n_cases = (400 if quick else 6000) * factor
     n_local = (150 if quick else 2000) * factor
+    n_remote = (100 if quick else 1500) * factor
     scs = []
     lscs = {m: [] for m in MODES[1:]}
     # corpus first (a corpus scenario may name its mode; default send)
@@ -739,9 +857,12 @@ def run_loop_check(chk, oracle_fn, focus, what, accept=lambda o: o == "true", co
         else:
             scs.append(gen_scenario(chk.rng, focus if k % 2 else "mixed"))
     # the thread-local scenarios are drawn after the Send ones: the Send part of a seed is unchanged
-    for m in MODES[1:]:
+    for m in LOCAL_MODES:
         for k in range(n_local):
             lscs[m].append(gen_local(chk.rng, k, focus))
+    # ... and the remote-shim ones after those
+    for k in range(n_remote):
+        lscs["remote-shim"].append(gen_remote(chk.rng, k, focus))
 
     def norm(l):
         l = json.loads(json.dumps(l))  # normalise tuples to lists
@@ -782,11 +903,18 @@ def run_loop_check(chk, oracle_fn, focus, what, accept=lambda o: o == "true", co
                             "non-trivial = the trace reaches at least 3 distinct phases (callback kinds, cancel, park, abort, failure); "
                             "distinct = distinct per-actor views; "
                             "thread-local hosts: per build and per local mode (adapter / native) the same kind of worlds on one "
-                            "ThreadLocalActorSpawner, 3/5 without spawn-links, 2/5 spawn-linked; oracle + model comparison (c_local) for all")
+                            "ThreadLocalActorSpawner, 3/5 without spawn-links, 2/5 spawn-linked; oracle + model comparison (c_local) for all; "
+                            "remote-shim: per build the Send families (without spawnx) with every actor spawned by spawn_linked_remote under a remote "
+                            "ActorId, messages through box_message/SerializedMessage/handle_serialized; oracle + model comparison (c_local = false)")
     chk.coverage["thread_local"] = {
         m: {"scenarios": len(lscs[m]) * len(chk.coverage["builds"]),
             "model_compared_unlinked": chk.hist.get(f"local.{m}.model_compared_unlinked", 0),
             "model_compared_linked": chk.hist.get(f"local.{m}.model_compared_linked", 0),
             "order_sensitive_left_out": chk.hist.get(f"local.{m}.order_sensitive.left_out", 0)}
-        for m in MODES[1:]}
+        for m in LOCAL_MODES}
+    chk.coverage["remote_shim"] = {
+        "scenarios": len(lscs["remote-shim"]) * len(chk.coverage["builds"]),
+        "handlers_run_through_handle_serialized": chk.hist.get("remote-shim.reached.Handle", 0),
+        "cancelled_callbacks": chk.hist.get("remote-shim.reached.TCancel", 0),
+        "order_sensitive_left_out": chk.hist.get("remote-shim.order_sensitive.left_out", 0)}
     return chk.finish(trusted_base=TRUSTED)
